@@ -114,6 +114,9 @@ def program_job(arg):
             # only a data-function entry is one evaluation either way (a plain entry called directly turns every
             # inner keep into its own evaluation whose run-time arguments are then known by value)
             add("entry_call", _seg(p, R, "local", sd("call"), style="call"))
+        if p.get("_alt_entry"):
+            # another function of the same program was evaluated before (same process, same store)
+            add("after_alternative_entry_same_store", _seg(p, R, "local", sd("alt"), pre=[dict(p, entry=p["_alt_entry"])]))
         add("second_evaluation_same_process", _seg(p, R, "local", sd("twice"), post_same=True))
         for k in ((1, 3) if tier == "quick" else (1, 3, 8)):
             add("after_%d_other_evaluations" % k, _seg(p, R, "local", sd("pre%d" % k), pre=others[:k]))
@@ -221,6 +224,22 @@ def programs_for(tier, seed):
             p = progs.random_program(rng, "c3r%d" % i)
             while len(gen.kept_nodes(p)) < 2:
                 p = progs.random_program(rng, "c3r%d" % i)
+        ps.append(p)
+    # one path kept by a helper that two callers reach with different arguments (two call contexts for one path)
+    for j in range(2):
+        p = gen.new_program("c3k%d" % j)
+        m = gen.add_module(p, "km")
+        build = gen.add_fn(p, m, "build", params=[("n", None)], const=5)
+        fetch = gen.add_fn(p, m, "fetch", params=[("n", None)], const=6)
+        p["fns"][fetch]["stmts"] = [gen.s_keep("/ctx/data", build, [gen.param("n")])]
+        ra = gen.add_fn(p, m, "report_a", const=7)
+        p["fns"][ra]["stmts"] = [gen.s_call(fetch, [gen.lit("1")])]
+        rb = gen.add_fn(p, m, "report_b", const=8)
+        p["fns"][rb]["stmts"] = [gen.s_call(fetch, [gen.lit("2")])]
+        main = gen.add_fn(p, m, "kmain", const=9)
+        p["fns"][main]["stmts"] = [gen.s_call(ra, []), gen.s_call(rb, [])] if j == 0 else [gen.s_keep("/ctx/ra", ra, []), gen.s_keep("/ctx/rb", rb, [])]
+        p["entry"] = main
+        p["_alt_entry"] = rb
         ps.append(p)
     # programs that dds refuses with a coded error (a parameter default of a type it cannot hash: a sentinel object, a
     # function): refused identically everywhere
